@@ -117,6 +117,17 @@ def cases(ctx):
             out.append({"kind": "org-to-ram", "rom": rom, "trace": True, "spec": {"t": "blocks", "high": rom == "high"},
                         "src": (f"*={org:#08x}\n.db 1\n*={ram:#08x}\nram_a:\n.db 2, 3\n*={(ram & 0xFF0000) | 0x3000:#08x}\nram_b:\n.db 4, 5, 6\n"
                                 f".dl ram_a, ram_b\n*={org + 0x100:#08x}\n.db 7\n@={ram:#08x}\nram_c:\n.db 8\n*={(ram & 0xFF0000) | 0x4000:#08x}\n.db 9\n.dl ram_c\n")})
+    # position moves that come out of a macro body / a block / a taken branch / a loop, and a @= right behind a *= (before
+    # the block's first byte): the block is stored where the *= says
+    for rom, a, b, c in (("low", 0x018000, 0x028000, 0x038000), ("high", 0x410000, 0x420000, 0x430000), ("low2", 0x818000, 0x828000, 0x838000)):
+        sp = {"t": "blocks", "high": rom == "high"}
+        out.append({"kind": "org-in-construct", "rom": rom, "trace": True, "spec": sp,
+                    "src": (f".macro zz_org(ad) {{\n*=ad\n}}\n*={a:#08x}\n.db 1\nzz_org({b:#08x})\nsecond:\n.db 2\n.dl second\n"
+                            f"{{\n*={c:#08x}\n.db 3\n}}\n.if 1 {{\n*={a + 0x100:#08x}\n}}\n.db 4\n.for zz_i := 0, 2 {{\n*={b + 0x100:#08x}\n.db 5, zz_i\n}}\n")})
+        out.append({"kind": "reloc-at-block-start", "rom": rom, "trace": True, "spec": sp,
+                    "src": f"*={a:#08x}\n@={c:#08x}\nzz_l:\n.db 1, 2\n.dl zz_l\n*={b:#08x}\n@={a + 0x40:#08x}\nzz_m:\nnop\n.dl zz_m\n"})
+        out.append({"kind": "reloc-at-block-start", "rom": rom, "trace": True, "spec": sp,
+                    "src": f"@={c:#08x}\nzz_l:\n.db 1, 2\n.dl zz_l\n"})
     # bank crossing with contiguous file offsets
     for rom, org in (("low", 0x00FFFD), ("low", 0x80FFFE), ("low", 0x6EFFFF), ("high", 0x40FFFC), ("high", 0xC1FFFF)):
         out.append({"kind": "bank-cross", "rom": rom, "trace": True, "spec": {"t": "blocks", "high": rom == "high"},
@@ -140,4 +151,4 @@ def cases(ctx):
                 out.append({"kind": f"user-map:{rom}", "rom": rom, "trace": True,
                             "spec": {"t": "blocks", "high": False, "user_map": True, "user_ranges": ranges},
                             "src": f"{text}*={org:#08x}\n{body}"})
-    return core.mark_must_assemble(out, {'bank-cross', 'org-to-label', 'ips-in-run', 'org-after-reloc', 'org-to-ram', 'user-map', 'moves', 'long-statement'})
+    return core.mark_must_assemble(out, {'org-in-construct', 'reloc-at-block-start', 'bank-cross', 'org-to-label', 'ips-in-run', 'org-after-reloc', 'org-to-ram', 'user-map', 'moves', 'long-statement'})
